@@ -773,20 +773,16 @@ clone_attr_path(struct attr_dict *dict, struct attr_data *orig)
 }
 
 /**  Instantiate a directory path.
- * @param attr  Leaf attribute.
- * @returns     The newly instantiated attribute,
- *              or @c NULL on allocation failure.
+ * @param attr  Leaf directory, or @c NULL (parent of the root directory).
  *
  * Inititalize all paths up the hierarchy for the (leaf) directory
- * denoted by @c tmpl.
+ * denoted by @c attr.
  */
 static void
 instantiate_path(struct attr_data *attr)
 {
-	while (!attr_isset(attr)) {
+	while (attr && !attr_isset(attr)) {
 		attr->flags.isset = 1;
-		if (!attr->parent)
-			break;
 		attr = attr->parent;
 	}
 }
